@@ -133,6 +133,24 @@ def _is_policy_new_test(e) -> bool:
     return (pol(l) and new(r)) or (pol(r) and new(l))
 
 
+LOG_METHODS = ("debug", "info", "warning", "warn", "error", "exception", "critical", "log")
+
+
+def _is_log_call(st) -> bool:
+    """`_logger.debug(...)` / `logging.info(...)`: effect-free for the model, but a call out of the receiver code"""
+    if not (isinstance(st, ast.Expr) and isinstance(st.value, ast.Call) and isinstance(st.value.func, ast.Attribute)):
+        return False
+    f = st.value.func
+    return f.attr in LOG_METHODS and isinstance(f.value, ast.Name) and f.value.id in ("_logger", "logger", "logging", "_LOGGER")
+
+
+def _split_logs(body):
+    """(log statements, the other statements) of a statement list, docstrings dropped"""
+    logs = [b for b in body if _is_log_call(b)]
+    rest = [b for b in body if not _is_log_call(b) and not _is_docstring(b)]
+    return logs, rest
+
+
 def _is_bare_return(st) -> bool:
     return isinstance(st, ast.Return) and (st.value is None or _const(st.value, None))
 
@@ -166,12 +184,17 @@ class _Emit:
         self.fname = fname
         self.code: list = []      # (lean ctor text, python source line, lineno)
         self.skipped: list = []
+        self.callouts: list = []  # (index of the next instruction, lock held, lineno, source)
 
     def emit(self, ins: str, st) -> None:
         self.code.append((ins, u(st).splitlines()[0][:110], st.lineno))
 
     def skip(self, st, why: str) -> None:
         self.skipped.append((st.lineno, why, u(st).splitlines()[0][:90]))
+
+    def callout(self, st, locked: bool) -> None:
+        """a call out of the receiver code (logging): no effect in the model, but a fact of its own"""
+        self.callouts.append((len(self.code), bool(locked), st.lineno, u(st).splitlines()[0][:90]))
 
     def bad(self, st, why: str):
         raise Untranslatable(f"{self.fname} line {st.lineno}: {why}: {u(st).splitlines()[0][:120]}")
@@ -229,6 +252,9 @@ def compile_receive(fn: ast.FunctionDef) -> _Emit:
     def stmt(st, locked: bool):
         if _is_docstring(st) or isinstance(st, ast.Pass):
             return
+        if _is_log_call(st):
+            em.callout(st, locked)
+            return
         if isinstance(st, ast.With):
             if not _with_queue_cond(st):
                 em.bad(st, "`with` on something else than self._queue_cond")
@@ -277,17 +303,21 @@ def compile_receive(fn: ast.FunctionDef) -> _Emit:
         # if len(self._queue) == self._max_queue_length: if self._discard_policy == self.DISCARD_NEW: return
         if isinstance(st, ast.If) and not st.orelse:
             t = st.test
-            inner = [b for b in st.body if not _is_docstring(b)]
-            if (_is_full_test(t) and len(inner) == 1 and isinstance(inner[0], ast.If) and not inner[0].orelse
-                    and _is_policy_new_test(inner[0].test)
-                    and len(inner[0].body) == 1 and _is_bare_return(inner[0].body[0])):
-                em.emit(".dropIfFullNew", st)
-                return
+            logs, inner = _split_logs(st.body)
+            if _is_full_test(t) and len(inner) == 1 and isinstance(inner[0], ast.If) and not inner[0].orelse and _is_policy_new_test(inner[0].test):
+                logs2, inner2 = _split_logs(inner[0].body)
+                if len(inner2) == 1 and _is_bare_return(inner2[0]):
+                    em.emit(".dropIfFullNew", st)
+                    for lg in logs + logs2:       # executed after the test, before the append / the return
+                        em.callout(lg, locked)
+                    return
             if (isinstance(t, ast.BoolOp) and isinstance(t.op, ast.And) and len(t.values) == 2
                     and ((_is_full_test(t.values[0]) and _is_policy_new_test(t.values[1]))
                          or (_is_full_test(t.values[1]) and _is_policy_new_test(t.values[0])))
                     and len(inner) == 1 and _is_bare_return(inner[0])):
                 em.emit(".dropIfFullNew", st)
+                for lg in logs:
+                    em.callout(lg, locked)
                 return
         if isinstance(st, ast.Expr) and isinstance(st.value, ast.Call) and isinstance(st.value.func, ast.Attribute):
             c = st.value
@@ -332,13 +362,19 @@ def compile_get(fn: ast.FunctionDef) -> _Emit:
             em.bad(st, "the wait predicate is not `the queue is non-empty`")
         if not (isinstance(tmo, ast.Name) and tmo.id == "timeout"):
             em.bad(st, "the wait does not use the caller's timeout")
-        if not (len(st.body) == 1 and isinstance(st.body[0], ast.Raise) and isinstance(st.body[0].exc, ast.Call)
-                and isinstance(st.body[0].exc.func, ast.Name) and st.body[0].exc.func.id == "QMI_TimeoutException"):
+        logs, body = _split_logs(st.body)
+        if not (len(body) == 1 and isinstance(body[0], ast.Raise) and isinstance(body[0].exc, ast.Call)
+                and isinstance(body[0].exc.func, ast.Name) and body[0].exc.func.id == "QMI_TimeoutException"):
             em.bad(st, "a failed wait does not raise QMI_TimeoutException")
+        for lg in logs:
+            em.callouts.append((len(em.code) + 1, True, lg.lineno, u(lg).splitlines()[0][:90]))
         return True
 
     def stmt(st, locked: bool):
         if _is_docstring(st) or isinstance(st, ast.Pass):
+            return
+        if _is_log_call(st):
+            em.callout(st, locked)
             return
         if isinstance(st, ast.With):
             if not _with_queue_cond(st):
@@ -389,6 +425,9 @@ def _compile_locked_single(fn: ast.FunctionDef, recognise) -> _Emit:
 
     def stmt(st, locked: bool):
         if _is_docstring(st) or isinstance(st, ast.Pass):
+            return
+        if _is_log_call(st):
+            em.callout(st, locked)
             return
         if isinstance(st, ast.With):
             if not _with_queue_cond(st) or locked:
@@ -478,6 +517,9 @@ def compile_dispatch(fn: ast.FunctionDef) -> _Emit:
     for st in fn.body:
         if _is_docstring(st) or isinstance(st, (ast.Import, ast.ImportFrom, ast.Pass)):
             continue
+        if _is_log_call(st):
+            em.callout(st, True)
+            continue
         if isinstance(st, ast.Assign) and len(st.targets) == 1 and isinstance(st.targets[0], ast.Name) and is_cur_thread(st.value):
             thread_locals.add(st.targets[0].id)
             em.skip(st, "the calling thread")
@@ -560,6 +602,9 @@ def compile_task_wait(fn: ast.FunctionDef) -> _Emit:
 
     def stmt(st):
         if _is_docstring(st) or isinstance(st, (ast.Pass, ast.Assert)):
+            return
+        if _is_log_call(st):
+            em.callout(st, True)
             return
         if is_wait_cond_slot_stmt(st):
             em.skip(st, "registration of the condition for stop_task (property C11)")
@@ -702,6 +747,18 @@ def render(progs: dict) -> str:
             L.append(f"  /- {k} -/ {ins}{comma}  -- {ln}: {safe}")
         L.append("]")
         L.append("")
+    L.append("/-- calls out of the receiver code (logging) found in the compiled functions: (function, index of the next")
+    L.append("statement, lock held) -/")
+    items = []
+    for name in ("recv", "get", "discard", "len", "ready", "plainWait", "taskWait"):
+        for (idx, locked, ln, src) in progs[name].callouts:
+            items.append(f"  ⟨.{name}, {idx}, {'true' if locked else 'false'}⟩  -- {ln}: " + src.replace("-/", "- /").replace("/-", "/ -"))
+    L.append("def callouts : List CallOut := [")
+    for k, it in enumerate(items):
+        head, _, cm = it.partition("  -- ")
+        L.append(head + ("," if k + 1 < len(items) else "") + "  -- " + cm)
+    L.append("]")
+    L.append("")
     cap = progs.get("_cap")
     if cap is not None:
         L.append("/-- the bound of the deque and the value the full-queue test compares with are the same expression of the")
@@ -747,6 +804,7 @@ def render_reference(why: str) -> str:
 def signature(progs: dict) -> dict:
     """plain-data view of the programs (for the harness / evidence)"""
     out = {k: [ins for (ins, _, _) in em.code] for k, em in progs.items() if not k.startswith("_")}
+    out["_callouts"] = [(k, idx, locked, ln) for k, em in progs.items() if not k.startswith("_") for (idx, locked, ln, _) in em.callouts]
     if "_cap" in progs:
         out["_cap"] = progs["_cap"]
     return out
